@@ -147,6 +147,123 @@ func c19DigestSeq(p *an.Prog, f *an.Func, st *types.Struct) []c19Fed {
 	return out
 }
 
+// c19FedUnlessEmpty: the feed of a byte-slice / string field is skipped only on
+// branch outcomes that say the very value is empty (`if len(x.F) > 0 { w.Write(x.F) }`,
+// `if x.F != nil {..}`, any spelling CondImplies can decide).  Writing an empty
+// value adds no byte to the stream, so the guarded write binds the field exactly
+// as the unguarded one does.  Decided for feeds written in the root function.
+func c19FedUnlessEmpty(a an.FieldUse) bool {
+	f := a.Fn
+	if f == nil || f.Body == nil || a.Depth != 0 || a.Field == nil {
+		return false
+	}
+	switch t := a.Field.Type().Underlying().(type) {
+	case *types.Slice:
+		if b, ok := t.Elem().Underlying().(*types.Basic); !ok || b.Kind() != types.Byte && b.Kind() != types.Uint8 {
+			return false
+		}
+	case *types.Basic:
+		if t.Info()&types.IsString == 0 {
+			return false
+		}
+	default:
+		return false
+	}
+	info := f.Info()
+	var fed *ast.SelectorExpr
+	ast.Inspect(f.Body, func(n ast.Node) bool {
+		if sel, ok := n.(*ast.SelectorExpr); ok && fed == nil && sel.Sel.Pos() == a.Pos {
+			fed = sel
+		}
+		return fed == nil
+	})
+	if fed == nil {
+		return false
+	}
+	g := f.Graph()
+	node := g.NodeContaining(a.Pos)
+	if node == nil {
+		return false
+	}
+	same := func(e ast.Expr) bool {
+		e = ast.Unparen(e)
+		return an.FieldOf(info, e) == a.Field && an.SameExpr(info, e, fed)
+	}
+	// atom EMPTY: len(v) == 0 / v == nil / v == "" and their negations, orderings against 0 and 1
+	at := func(e ast.Expr) (string, bool, bool) {
+		be, ok := ast.Unparen(e).(*ast.BinaryExpr)
+		if !ok {
+			return "", false, false
+		}
+		lenOf := func(x ast.Expr) bool {
+			call, ok := ast.Unparen(x).(*ast.CallExpr)
+			return ok && an.IsBuiltin(info, call, "len") && len(call.Args) == 1 && same(call.Args[0])
+		}
+		cst := func(x ast.Expr) string {
+			if tv, ok := info.Types[ast.Unparen(x)]; ok && tv.Value != nil {
+				return tv.Value.ExactString()
+			}
+			return ""
+		}
+		isNil := func(x ast.Expr) bool {
+			tv, ok := info.Types[ast.Unparen(x)]
+			return ok && tv.IsNil()
+		}
+		x, y, op := be.X, be.Y, be.Op
+		if !lenOf(x) && !same(x) {
+			x, y = y, x
+			switch op {
+			case token.LSS:
+				op = token.GTR
+			case token.GTR:
+				op = token.LSS
+			case token.LEQ:
+				op = token.GEQ
+			case token.GEQ:
+				op = token.LEQ
+			}
+		}
+		switch {
+		case lenOf(x):
+			switch k := cst(y); {
+			case k == "0" && op == token.EQL, k == "0" && op == token.LEQ, k == "1" && op == token.LSS:
+				return "EMPTY", false, true
+			case k == "0" && op == token.NEQ, k == "0" && op == token.GTR, k == "1" && op == token.GEQ:
+				return "EMPTY", true, true
+			}
+		case same(x):
+			if isNil(y) || cst(y) == `""` {
+				if op == token.EQL {
+					return "EMPTY", false, true
+				}
+				if op == token.NEQ {
+					return "EMPTY", true, true
+				}
+			}
+		}
+		return "", false, false
+	}
+	empty := g.EdgesImplying(at, map[string]bool{"EMPTY": true})
+	if len(empty) == 0 {
+		return false
+	}
+	// the value must not change between the test and the write: the field is only read here
+	for _, n := range g.Nodes {
+		if n.Kind != an.KStmt {
+			continue
+		}
+		switch st := n.Ast.(type) {
+		case *ast.AssignStmt:
+			for _, l := range st.Lhs {
+				if an.FieldOf(info, l) == a.Field {
+					return false
+				}
+			}
+		}
+	}
+	return g.MustExecOnSuccess(node, empty)
+}
+
 func c19FieldNames(seq []c19Fed) string {
 	var s []string
 	for _, x := range seq {
@@ -188,7 +305,7 @@ func c19CheckDigestCoverage(c *rep.Ctx, d *c19DigestResult, only string) bool {
 		for _, x := range d.seq {
 			if x.acc.Field == fld {
 				n++
-				must = must || x.acc.Must
+				must = must || x.acc.Must || c19FedUnlessEmpty(x.acc)
 				pos = x.acc.Pos
 			}
 		}
